@@ -49,6 +49,9 @@ func (f *Family) Kind(name string) *Kind {
 	}
 	k := f.byN[name]
 	if k == nil {
+		if name == "Y0" {
+			return nil
+		}
 		panic("gen: unknown kind " + name + " in family " + f.Name)
 	}
 	return k
